@@ -14,6 +14,7 @@ import (
 	"sort"
 	"strings"
 	"sync"
+	"sync/atomic"
 	"time"
 
 	"golang.org/x/tools/go/ssa"
@@ -125,10 +126,16 @@ func cmdCheck(args []string) int {
 	if *tier == "thorough" {
 		e.timeoutS = 60
 		e.need = 2
+		e.thorough = true
 	}
 	if err := e.loadSpecs("/verif/contracts/extern"); err != nil {
 		fmt.Fprintf(os.Stderr, "govc: contract files: %v\n", err)
 		return 2
+	}
+	if os.Getenv("GOVC_LINT") != "" {
+		for _, l := range e.specLint {
+			fmt.Fprintln(os.Stderr, "lint:", l)
+		}
 	}
 	loadT := time.Since(start).Seconds()
 	for _, s := range e.specs.funcs {
@@ -462,6 +469,23 @@ func cmdCheck(args []string) int {
 		}
 		violations = append(violations, fmt.Sprintf("VIOLATION property=%s replay=%s obligation=%s verdict=%s%s", *prop, path, o.Name, o.Res.Verdict, suffix))
 	}
+	for _, wr := range e.wireChecks() {
+		nObl++
+		r := OblReport{Name: wr.name, Kind: "structural", Src: "struct tag fixes the JSON member", Line: wr.line, Verdict: "unsat", Solver: "structural"}
+		if wr.ok {
+			nDis++
+			bySolver["structural"]++
+			reports = append(reports, r)
+			continue
+		}
+		r.Verdict = "sat"
+		reports = append(reports, r)
+		path := filepath.Join(replayDir, sanitize(wr.name)+".json")
+		os.MkdirAll(replayDir, 0o755)
+		data, _ := json.MarshalIndent(map[string]string{"obligation": wr.name, "detail": wr.detail, "clause_at": wr.line}, "", " ")
+		os.WriteFile(path, data, 0o644)
+		violations = append(violations, fmt.Sprintf("VIOLATION property=%s replay=%s obligation=%s detail=%q no-failing-input-found", *prop, path, wr.name, wr.detail))
+	}
 	for i, m := range staleMsgs {
 		path := filepath.Join(replayDir, fmt.Sprintf("stale_%d.json", i))
 		os.MkdirAll(replayDir, 0o755)
@@ -535,8 +559,8 @@ func cmdCheck(args []string) int {
 		"all_obligations":          reports,
 		"not_covered":              meta.NotCovered,
 		"unreachable_functions_left_out_of_sweeps": sortedKeys(e.deadSkipped),
-		"notes":                    notes,
-		"timeout_s":                e.timeoutS,
+		"notes":                     notes,
+		"timeout_s":                 e.timeoutS,
 		"solvers_required_to_agree": e.need,
 	}
 	ev := map[string]interface{}{
@@ -635,6 +659,19 @@ func (o *Obligation) discharge(e *Engine) {
 		}
 		res := runQuery(fmt.Sprintf("%s.s%d", o.Name, i), q, t, e.seed, e.need)
 		total += res.Time
+		if stg.depth < 0 && res.Verdict != "unsat" && res.Verdict != "sat" && atomic.AddInt32(&e.retries, 1) <= 6 {
+			// no answer within the time limit (a loaded machine, or a hard query): one more attempt with a
+			// generous limit before the obligation is reported as undischarged; at most 6 such retries per run
+			long := 6 * e.timeoutS
+			if long < 90 {
+				long = 90
+			}
+			res2 := runQuery(fmt.Sprintf("%s.s%d.retry", o.Name, i), q, long, e.seed, 1)
+			total += res2.Time
+			if res2.Verdict == "unsat" || res2.Verdict == "sat" {
+				res = res2
+			}
+		}
 		if res.Verdict == "unsat" || stg.depth < 0 {
 			o.Query = q
 			o.Res = res
@@ -907,4 +944,3 @@ var ordinalRe = regexp.MustCompile(`#[0-9]+$`)
 
 // stripOrdinal: "f#kind:x#3" -> "f#kind:x" (repeated instances of one obligation, e.g. through inlining)
 func stripOrdinal(s string) string { return ordinalRe.ReplaceAllString(s, "") }
-
